@@ -49,6 +49,12 @@ func DecodeDecrypt(
 		}
 	}
 
+	if len(ikeMsg.Payloads) == 0 && ikeMsg.IKEHeader != nil && ikeMsg.NextPayload == uint8(message.TypeSK) {
+		// The header announces an Encrypted payload but the datagram ends behind the header:
+		// a truncated protected message must not pass as an empty unprotected one.
+		return nil, errors.Errorf("IKE decode decrypt: encrypted payload announced by the header is missing")
+	}
+
 	if len(ikeMsg.Payloads) > 0 && ikeMsg.Payloads[0].Type() == message.TypeSK {
 		if ikesaKey == nil {
 			return nil, errors.Errorf("IKE decode decrypt: need ikesaKey to decrypt")
